@@ -171,6 +171,12 @@ func (r *DataReader) EcsLocation(q []byte, ecs *dns.EDNS0_SUBNET) (*Location, er
 	}
 	mask := net.CIDRMask(int(ecs.SourceNetmask), bits)
 	ipnet := net.IPNet{IP: ecs.Address, Mask: mask}
+	// The client network is address/source prefix length: address bits below the prefix length (a wire message can
+	// carry them) take no part in the lookup. The CDB lookup masks per prefix length; the RocksDB lookup seeks with
+	// the address as given and would find range points inside the client network.
+	if masked := ecs.Address.Mask(mask); masked != nil {
+		ipnet.IP = masked
+	}
 
 	loc, err := r.findLocation(q, []byte{0, '8'}, &ipnet)
 	if err != nil {
